@@ -30,6 +30,8 @@ type rframe struct {
 	neg     bool
 	reply   bool
 	clean   bool
+	mpanic  bool // the message / ping / pong / close handler panics on this frame's message or control payload
+	fpanic  bool // the data frame handler panics on this frame
 	infl    byte // o l b
 	ilen    int
 }
@@ -66,8 +68,8 @@ func b01(b bool) int {
 }
 
 func (f *rframe) desc(masked bool) string {
-	return fmt.Sprintf("%s,%d,%d,%d,%d,%d,%d,%d,%d,%d,%c,%d,0", f.class(), b01(f.fin), b01(f.rsv1), b01(f.rsvx), f.lk(), b01(masked),
-		len(f.payload), b01(f.neg), b01(f.reply), b01(f.clean), f.infl, f.ilen)
+	return fmt.Sprintf("%s,%d,%d,%d,%d,%d,%d,%d,%d,%d,%d,%d,%c,%d,0", f.class(), b01(f.fin), b01(f.rsv1), b01(f.rsvx), f.lk(), b01(masked),
+		len(f.payload), b01(f.neg), b01(f.reply), b01(f.clean), b01(f.mpanic), b01(f.fpanic), f.infl, f.ilen)
 }
 
 func (f *rframe) wire(masked bool, r *rand.Rand) []byte {
@@ -84,6 +86,22 @@ func (f *rframe) wire(masked bool, r *rand.Rand) []byte {
 }
 
 func genRecvFrames(r *rand.Rand, idx int, zip bool, limit int) []*rframe {
+	fs := genRecvFrames0(r, idx, zip, limit)
+	// handlers that panic: on the message / control payload, on a data frame
+	if r.Intn(3) == 0 {
+		for _, f := range fs {
+			if r.Intn(4) == 0 {
+				f.mpanic = true
+			}
+			if r.Intn(6) == 0 {
+				f.fpanic = true
+			}
+		}
+	}
+	return fs
+}
+
+func genRecvFrames0(r *rand.Rand, idx int, zip bool, limit int) []*rframe {
 	var fs []*rframe
 	nm := 1 + r.Intn(5)
 	ctl := func() *rframe {
@@ -258,6 +276,30 @@ func wsrecvCase(h *H, r *rand.Rand, idx int) {
 			k++
 		}
 	}
+	// the data frames with a payload (the frame handler sees them in order), the control frames whose handler runs
+	var withPayload, ctlFrames []*rframe
+	for _, f := range frames {
+		switch f.class() {
+		case "d", "c":
+			if len(f.payload) > 0 {
+				withPayload = append(withPayload, f)
+			}
+		case "t":
+			if !f.reply {
+				ctlFrames = append(ctlFrames, f)
+			}
+		}
+	}
+	framesSeen, ctlSeen := 0, 0
+	ctlHandler := func() {
+		i := ctlSeen
+		ctlSeen++
+		if i < len(ctlFrames) && ctlFrames[i].mpanic {
+			h.rep.Stat("wsrecv.panic.control-handler")
+			panic("control handler panics")
+		}
+	}
+	recov := r.Intn(2) == 0
 	delivered := 0
 	var problems []string
 	onMessage := func(c *websocket.Conn, mt websocket.MessageType, data []byte) {
@@ -267,12 +309,26 @@ func wsrecvCase(h *H, r *rand.Rand, idx int) {
 		}
 		f := frameIdx[delivered]
 		delivered++
+		if f != nil && f.mpanic {
+			h.rep.Stat("wsrecv.panic.message-handler")
+			panic("message handler panics")
+		}
 		if f != nil && f.clean {
 			c.CloseAndClean(nil)
 		}
 	}
 	onFrame := func(c *websocket.Conn, mt websocket.MessageType, fin bool, data []byte) {
 		al.Observe(data, "OnDataFrame")
+		i := framesSeen
+		framesSeen++
+		if i < len(withPayload) && withPayload[i].fpanic {
+			h.rep.Stat("wsrecv.panic.frame-handler")
+			panic("frame handler panics")
+		}
+	}
+	swallow := func(f func()) {
+		defer func() { _ = recover() }()
+		f()
 	}
 	conf := nbhttp.Config{ReadLimit: rlimit}
 	u := websocket.NewUpgrader()
@@ -288,9 +344,14 @@ func wsrecvCase(h *H, r *rand.Rand, idx int) {
 	u.ReleasePayload = release
 	u.EnableCompression(zip)
 	u.MessageLengthLimit = limit
-	u.SetPingHandler(func(*websocket.Conn, string) {})
-	u.SetPongHandler(func(*websocket.Conn, string) {})
-	u.SetCloseHandler(func(*websocket.Conn, int, string) {})
+	u.SetPingHandler(func(*websocket.Conn, string) { ctlHandler() })
+	u.SetPongHandler(func(*websocket.Conn, string) { ctlHandler() })
+	u.SetCloseHandler(func(*websocket.Conn, int, string) { ctlHandler() })
+	if recov {
+		// the executor that runs the handlers recovers their panics (the default task pool's Call, a connection's job
+		// runner); otherwise it is a plain call (an application's own ServerExecutor): a panic reaches Parse's recover
+		engine.SyncCall = swallow
+	}
 	u.OnMessage(onMessage)
 	if fhOn {
 		u.OnDataFrame(onFrame)
@@ -311,6 +372,9 @@ func wsrecvCase(h *H, r *rand.Rand, idx int) {
 		wsc = websocket.NewClientConn(u, fc, "", zip, false)
 		wsc.Engine = engine
 		wsc.Execute = func(f func()) bool { f(); return true }
+		if recov {
+			wsc.Execute = func(f func()) bool { swallow(f); return true }
+		}
 		websocket.VerifSetReleasePayload(wsc, release)
 	}
 	base := len(al.Events()) // the handshake's events are not part of the compared program
@@ -334,7 +398,17 @@ func wsrecvCase(h *H, r *rand.Rand, idx int) {
 			continue
 		}
 		seg := append([]byte{}, stream[prev:b]...)
-		err := wsc.Parse(seg)
+		var err error
+		func() {
+			// Parse recovers panics itself; should one escape, it is caught here and the trace is checked all the same
+			defer func() {
+				if p := recover(); p != nil {
+					err = fmt.Errorf("panic escaped Parse: %v", p)
+					h.rep.Stat("wsrecv.panic-escaped-parse")
+				}
+			}()
+			err = wsc.Parse(seg)
+		}()
 		fill(seg, 0xEE)
 		ops = append(ops, fmt.Sprintf("p:%d", b-prev))
 		obs = append(obs, state(presClass(err)))
@@ -350,11 +424,12 @@ func wsrecvCase(h *H, r *rand.Rand, idx int) {
 
 	replay := map[string]interface{}{"harness": "bufown", "scenario": "wsrecv", "seed": h.seed, "index": idx, "allocator": modeNames[mode],
 		"slack": slack, "server_role": server, "release_payload": release, "frame_handler": fhOn, "compression": zip,
-		"message_length_limit": limit, "read_limit": rlimit, "frames": descs, "ops": ops}
+		"message_length_limit": limit, "read_limit": rlimit, "executor_recovers": recov, "frames": descs, "ops": ops}
 	h.rep.Case(fmt.Sprintf("wsrecv/%v/%v/%v/%v/%v/%d/%s", descs, ops, server, release, fhOn, limit, modeNames[mode]), true)
 	h.rep.Ops += len(ops)
 	h.rep.Stat(fmt.Sprintf("wsrecv.release=%v", release))
 	h.rep.Stat(fmt.Sprintf("wsrecv.server=%v", server))
+	h.rep.Stat(fmt.Sprintf("wsrecv.executor-recovers=%v", recov))
 	for _, o := range obs {
 		h.rep.Stat("wsrecv.parse=" + o[:strings.Index(o, "/")])
 	}
@@ -370,7 +445,7 @@ func wsrecvCase(h *H, r *rand.Rand, idx int) {
 		}
 	}
 	h.finish(al, "wsrecv", replay)
-	if release {
+	if release && recov {
 		if live := al.LiveSites(); len(live) > 0 {
 			h.rep.Add(hx.Finding{Kind: "oracle", Property: "C11", Signature: "not-returned-after-close-ws",
 				What: fmt.Sprintf("ReleasePayload is on, the connection is closed, and buffers are still held (by allocation site): %v", live), Replay: replay})
@@ -385,7 +460,7 @@ func wsrecvCase(h *H, r *rand.Rand, idx int) {
 		if len(descs) > 0 {
 			fr = strings.Join(descs, ";")
 		}
-		line := h.model.Ask("W %d 1 %d %d %d %d %s %s %s", b01(release), b01(fhOn), b01(zip), limit, rlimit, mv, fr, strings.Join(ops, " "))
+		line := h.model.Ask("W %d 1 %d %d %d %d %d %s %s %s", b01(release), b01(fhOn), b01(zip), limit, rlimit, b01(recov), mv, fr, strings.Join(ops, " "))
 		if !strings.HasPrefix(line, "S=") {
 			hx.Fatal("model answer %q", line)
 		}
